@@ -1,4 +1,18 @@
 // harness TU for SE_2_3 (double)
 #define HX_HAS_ROTATION 1
 #include "generic.h"
-namespace hx { void run_SE_2_3(const Req& r, Resp& R) { run<manif::SE_2_3<HX_SC>>(r, R); } }
+namespace hx {
+template <> struct Extra<manif::SE_2_3<HX_SC>> {
+  static bool run(const Req& r, Resp& R) {
+    const auto& a = r.a;
+    using G = manif::SE_2_3<HX_SC>;
+    if (r.op == "ctor_iso" && a.size() == 19) {       // SE_2_3(Isometry3, linear velocity)
+      Eigen::Transform<HX_SC, 3, Eigen::Isometry> h;
+      for (int i = 0; i < 4; ++i) for (int j = 0; j < 4; ++j) h.matrix()(i, j) = (HX_SC)a[4 * i + j];
+      G g(h, Eigen::Matrix<HX_SC, 3, 1>((HX_SC)a[16], (HX_SC)a[17], (HX_SC)a[18])); pushM(R.out, g.coeffs()); return true;
+    }
+    return false;
+  }
+};
+void run_SE_2_3(const Req& r, Resp& R) { run<manif::SE_2_3<HX_SC>>(r, R); }
+}
